@@ -446,6 +446,18 @@ func (s *StateDB) RevertToSnapshot(revid int) {
 // frame. A half-written flush - e.g. coins minted for an account that then cannot be credited - must not
 // outlive that frame.
 func (s *StateDB) Commit() error {
+	return s.commit(true)
+}
+
+// Flush writes the dirty states to keeper in the middle of a transaction, for a stateful precompile that is
+// about to read or change them. Unlike Commit it does not remove the accounts that self-destructed:
+// SELFDESTRUCT takes effect at the end of the transaction, until then the frame that executed it can still be
+// reverted - and the journal restores the state object, not an account and a storage deleted from the store.
+func (s *StateDB) Flush() error {
+	return s.commit(false)
+}
+
+func (s *StateDB) commit(deleteSuicided bool) error {
 	ctx, writeCache := s.ctx, func() {}
 	if s.ctx.MultiStore() != nil { // a context without a store is only used with mock keepers
 		ctx, writeCache = s.ctx.CacheContext()
@@ -460,7 +472,7 @@ func (s *StateDB) Commit() error {
 
 	for _, addr := range s.journal.sortedDirties() {
 		obj := s.stateObjects[addr]
-		if obj.suicided {
+		if obj.suicided && deleteSuicided {
 			if err := s.keeper.DeleteAccount(ctx, obj.Address()); err != nil {
 				return errorsmod.Wrap(err, "failed to delete account")
 			}
